@@ -41,6 +41,11 @@ impl RealP {
         RealP { dom: vec![a..b, c..d] }
     }
 }
+impl RealP {
+    pub fn d3(r: [(f64, f64); 3]) -> Self {
+        RealP { dom: vec![r[0].0..r[0].1, r[1].0..r[1].1, r[2].0..r[2].1] }
+    }
+}
 impl Problem for RealP {
     type Encoding = Vec<f64>;
     type Objective = SingleObjective;
